@@ -98,7 +98,11 @@ harness(void)
         gz.os = I.os;
         gz.hcrc = I.hcrc;
         gz.flags = I.flags;                 /* "internal data": must not matter */
-        gz.extra_buf_len = I.extra_buf_len; /* reader-side capacity: must not matter */
+        /* reader-side capacity: must not matter to the writer.  Bounded so that a writer that (wrongly)
+         * copied extra_buf_len bytes stays inside the loop bound of the memcpy model and is reported as
+         * an out-of-bounds access / layout violation rather than as an unwinding failure. */
+        VASSUME(I.extra_buf_len <= 16);
+        gz.extra_buf_len = I.extra_buf_len;
 #if EXTRA >= 0
         gz.extra = extra;
         gz.extra_len = EXTRA;
